@@ -375,6 +375,41 @@ func genTxn(r *prng.R) string {
 	return txnLine(ex, reqDoc, respDoc)
 }
 
+// genMulti: 2..3 overlapping ObfuscateJSON calls (mostly nested through the hasher, sometimes concurrent on
+// one P); the first document has at least one exclusion that hits a real position; the others have the same
+// shape (same positions, other values) or an unrelated one.
+func genMulti(r *prng.R) string {
+	n := 2
+	if r.Chance(25) {
+		n = 3
+	}
+	g := &gctx{r: r}
+	first := g.val(r.Range(1, 3), "", false)
+	cursors := g.cursors
+	docs := []string{text(r, first, r.Chance(20))}
+	exs := [][]string{append(genEx(r, "raw", cursors), prng.Pick(r, cursors))}
+	for i := 1; i < n; i++ {
+		if r.Chance(60) {
+			docs = append(docs, text(r, g.sameShape(first), false))
+			exs = append(exs, genEx(r, "raw", cursors))
+		} else {
+			g2 := &gctx{r: r}
+			v := g2.val(r.Range(1, 3), "", false)
+			d := text(r, v, false)
+			if r.Chance(5) {
+				d = prng.Pick(r, malformed)
+			}
+			docs = append(docs, d)
+			exs = append(exs, genEx(r, "raw", g2.cursors))
+		}
+	}
+	mode := "nest"
+	if r.Chance(15) {
+		mode = "conc"
+	}
+	return multiLine(mode, r.Range(1, 3), exs, docs)
+}
+
 func pickSide(r *prng.R) string {
 	switch x := r.Intn(10); {
 	case x < 4:
@@ -406,6 +441,10 @@ func gen(r *prng.R, f proto.Flags, emit func(proto.Case)) {
 		x := rr.Intn(100)
 		if rr.Chance(20) {
 			emit(proto.Case{ID: next("x"), Ops: []string{genTxn(rr)}})
+			continue
+		}
+		if rr.Chance(12) {
+			emit(proto.Case{ID: next("o"), Ops: []string{genMulti(rr)}})
 			continue
 		}
 		switch {
@@ -519,6 +558,7 @@ func enumCursors(maxLen int, k1, k2 string) []string {
 
 func enumerate(emit func(proto.Case), next func(string) string) {
 	enumerateNames(emit, next, "a", "b")
+	enumerateOverlap(emit, next)
 	// the same scope over two names that differ ONLY in letter case
 	enumerateNames(emit, next, "a", "A")
 	// transactions: every pair of depth<=1 bodies x every (request exclusion, response exclusion) of <= 2 segments
@@ -535,6 +575,24 @@ func enumerate(emit func(proto.Case), next func(string) string) {
 					emit(proto.Case{ID: next("y"), Ops: ops})
 				}
 			}
+		}
+	}
+}
+
+// enumerateOverlap: every ordered pair of depth<=1 documents, call 0 excluding one cursor of <= 1 segment,
+// call 1 started from inside call 0 at its 1st / 2nd hashed value, plus the same pair concurrently.
+func enumerateOverlap(emit func(proto.Case), next func(string) string) {
+	d1 := docs(1, "a", "b")
+	cs := enumCursors(1, "a", "b")
+	for _, x := range d1 {
+		for _, y := range d1 {
+			var ops []string
+			for _, c := range cs {
+				pair := [][]string{{c}, {}}
+				dd := []string{enumText(x), strings.ReplaceAll(enumText(y), "\"s", "\"t")}
+				ops = append(ops, multiLine("nest", 1, pair, dd), multiLine("nest", 2, pair, dd), multiLine("conc", 1, pair, dd))
+			}
+			emit(proto.Case{ID: next("z"), Ops: ops})
 		}
 	}
 }
